@@ -106,7 +106,9 @@ func feedOf(i int) jrn.Feed {
 	return f
 }
 
-func isGood(kind string) bool { return kind == "good" || kind == "goodT" || kind == "goodR" || kind == "goodL" }
+func isGood(kind string) bool {
+	return kind == "good" || kind == "goodT" || kind == "goodR" || kind == "goodL"
+}
 
 // goodBytes is the content of a good file. goodT files all carry the same header timestamp; goodR files are the same
 // message with the entity fields serialised before the header field.
